@@ -76,6 +76,16 @@ CHECKS = {
              'rename_globals=True for histories.',
         technique='TLA+ (TLC) model checking of call histories/interleavings + replay of TLC-generated behaviours into the implementation',
         design_ref='3.8, 5 (C11)'),
+    'C01': dict(
+        specs='Pipeline.tla, PipelineS.tla, Trace_Behave.tla',
+        text='Composition/gating of the stages checked by TLC; ObsStable judged by TLC on runs of runnable programs: the source, the tree after every stage of minify() '
+             '(outside seams, compiled as an AST without any printer) and the printed result must give the same output, exception type and public namespace. '
+             'Programs: the enumerated scope programs (two statement orders), suite cases and hoist placements of the other specifications concretised runnable, '
+             'and 12 hand-written seed scripts; options: defaults and seeded subsets of the documented-safe options (seeds: 12 / 200 subsets).',
+        note='Observation excludes documented reflective views (renamed names, annotations, line numbers, parameter names of functions). Runs on CPython 3.12; known '
+             'findings D18 (PEP 709) and D20 (promoted docstring) are matched by shape.',
+        technique='TLA+ (TLC) model of the pipeline + trace validation of per-stage behaviour observations of TLC-enumerated programs',
+        design_ref='3.9, 5 (C01)'),
     'C02': dict(
         specs='PrinterS.tla, Printer.tla, Trace_Printer.tla',
         text='S = the grammar\'s levels per expression kind and per expression-valued slot (121 slots x 60 kinds), validated cell by cell against '
